@@ -408,6 +408,7 @@ struct RunOut {
     uint64_t out_hash = 0; std::vector<std::string> out_names; std::map<std::string, uint64_t> out_files;
     std::map<std::string, std::string> kinds;   // abs -> kind
     long dyn = -1, tot = -1;
+    std::string static_text;      // contents of the s*.c files (canonical runs with a reference module)
 };
 
 static std::string header_name(const std::string& base) {
@@ -522,6 +523,8 @@ static void run_translator(const Plan& p, bool canonical, RunOut& o) {
         h = fnv_step(h, kv.second.hash);
     }
     o.out_hash = h;
+    if (canonical && !p.ref.empty())
+        for (auto& n : o.out_names) { std::string abs = root + "/" + n, d, b; split_path(abs, &d, &b); if (d == outdir && is_impl_name(b) && b[0] == 's') { FILE* f = __real_fopen(abs.c_str(), "rb"); if (f) { char buf[65536]; size_t k; while ((k = fread(buf, 1, sizeof buf, f)) > 0) o.static_text.append(buf, k); __real_fclose(f); o.static_text += "\n"; } } }
     if (!g_keep) rm_rf(root);
 }
 
@@ -612,6 +615,30 @@ static void c09_oracle(const Plan& p, const RunOut& canon, const RunOut& o, Verd
         if (a == b) { for (auto& n : canon.out_names) if (canon.out_files.at(n) != o.out_files.at(n)) { which = file_class(o, n); det += " " + n; } }
         else { for (auto& n : a) if (!b.count(n)) det += " missing:" + n; for (auto& n : b) if (!a.count(n)) det += " extra:" + n; }
         v.set("C09/schedule/output-differs-from-canonical:" + which, "output of the scheduled run differs from the -t 1 unpreempted run:" + det);
+    }
+    // -r: a function whose body occurs nowhere in the reference module must be classified dynamic
+    if (!p.ref.empty() && p.ref != p.module && !p.changed.empty() && p.changed != "-") {
+        std::vector<long> must; { std::istringstream is(p.changed); std::string t; while (std::getline(is, t, ',')) must.push_back(atol(t.c_str())); }
+        if (canon.tot >= 0 && canon.dyn < (long)must.size())
+            v.set("C09/reference/changed-function-classified-static:count", std::to_string(must.size()) + " functions have no byte-identical body in the reference module but only " + std::to_string(canon.dyn) + " were classified dynamic");
+        for (long fi : must) {
+            // definition of f<fi> in a static file?  (format-dependent: when the pattern matches nothing the textual check is skipped)
+            std::string pat = "f" + std::to_string(fi) + "(";
+            size_t pos = 0; bool in_static = false;
+            while ((pos = canon.static_text.find(pat, pos)) != std::string::npos) {
+                bool word = pos == 0 || !(isalnum((unsigned char)canon.static_text[pos - 1]));
+                size_t close = canon.static_text.find(')', pos);
+                size_t nl = canon.static_text.find('\n', pos);
+                // a definition: "...f12(args) {" on one line, preceded by a type at line start
+                if ((word || (pos >= 1 && canon.static_text[pos - 1] == '_')) && close != std::string::npos && nl != std::string::npos && close < nl && canon.static_text.find('{', close) < nl) {
+                    size_t ls = canon.static_text.rfind('\n', pos); ls = ls == std::string::npos ? 0 : ls + 1;
+                    std::string head = canon.static_text.substr(ls, pos - ls);
+                    if (head.find('=') == std::string::npos && head.find('(') == std::string::npos && !head.empty() && head[0] != ' ') in_static = true;
+                }
+                pos += pat.size();
+            }
+            if (in_static) { v.set("C09/reference/changed-function-classified-static:definition-in-s-file", "function f" + std::to_string(fi) + " has no byte-identical body in the reference module but is defined in a static implementation file"); break; }
+        }
     }
     // expected file set
     long nf = p.nfuncs, dyn = 0, stat = nf;
